@@ -38,8 +38,9 @@ def _contents(kind, n):
 
 
 class Resolver:
-    def __init__(self, behaviour):
+    def __init__(self, behaviour, rewind=True):
         self.b = behaviour
+        self.rewind = rewind
         self.calls = []
 
     def __call__(self, f1, f2):
@@ -47,7 +48,8 @@ class Resolver:
         for f in (f1, f2):
             try:
                 data = f.read()
-                f.seek(0)
+                if self.rewind:
+                    f.seek(0)       # (a resolver is not obliged to rewind what it read: the engine must do that itself)
             except Exception as e:
                 data = "READ-ERROR %r" % (e,)
             rec[getattr(f, "side", None)] = (data, getattr(f, "path", None))
@@ -63,7 +65,11 @@ class Resolver:
         if b == "remote-drop":
             return (by_side.get(1), False)
         if b == "merge-drop":
-            return (io.BytesIO(b"MERGED"), False)
+            m = io.BytesIO()
+            m.write(b"MERGED")
+            if self.rewind:
+                m.seek(0)
+            return (m, False)
         if b == "merge-keep":
             return (io.BytesIO(b"MERGED"), True)
         if b == "none":
@@ -83,7 +89,7 @@ def _run_one(case, plan):
     ex = Exec(case["cfg"])
     fp = FingerprintMonitor()
     ex.monitors.append(fp)
-    res = Resolver(case["behaviour"])
+    res = Resolver(case["behaviour"], case.get("rewind", True))
     ex.world.resolver = res
     v = None
     ex.conflict = None          # did both sides hold different unsynchronised content when the second user wrote?
@@ -235,7 +241,7 @@ def generate(rng, tier, index):
     flav = rng.choice(ALL_FLAVOURS)
     ckind = weighted(rng, (("equal", 2), ("empty-vs", 1), ("one-byte", 1), ("large", 1), ("small", 4)))
     case = {"prop": ID, "cfg": {"flavour": flav}, "shape": rng.choice(["create", "edit"]), "ckind": ckind, "contents": list(_contents(ckind, index)),
-            "behaviour": weighted(rng, tuple((b, 1 if b == "merge-keep" else 3) for b in BEHAVIOURS)), "first": rng.randrange(2), "base_side": rng.randrange(2), "family": "conflict"}
+            "behaviour": weighted(rng, tuple((b, 1 if b == "merge-keep" else 3) for b in BEHAVIOURS)), "first": rng.randrange(2), "base_side": rng.randrange(2), "family": "conflict", "rewind": rng.random() < 0.5}
     if rng.random() < 0.5:
         case["contents"].reverse()
     case["plans"] = [_plan(rng, case) for _ in range(3)]
